@@ -50,6 +50,17 @@ def make_listing(rng: random.Random, style: str) -> List[L.SInst]:
                         b.ops[k] = src
                     else:  # near miss: extension / other width of the copied operand
                         b.ops[k] = _near(rng, src)
+    elif style == "tiny":
+        # very small vocabularies: equal / prefix-related operands and whole instructions recur often
+        pool = rng.sample(L.ALL_MNEMONICS, rng.randint(2, 3))
+        ops = rng.choice([["%r8", "%r8d", "$0x1", "$0x10"], ["%rax", "%eax", "%ax", "$0x8"], ["%rsi", "%si", "%sil", "%rdi"],
+                          ["%rsp", "%esp", "%rbp", "%bp"], ["$0x1", "$0x10", "$0x100", "%rcx"],
+                          ["-0x8(%rbp)", "-0x18(%rbp)", "%rbx", "%ebx"]])
+        insts = []
+        for _ in range(n):
+            k = rng.choice([0, 1, 1, 2, 2, 2, 3])
+            insts.append(L.SInst(0, rng.choice(pool), [rng.choice(ops) for _ in range(k)], None, None, rng.randint(1, 8)))
+        insts[0].addr = rng.choice([0x10, 0x401000, 0x1139])
     elif style == "regs":
         fam = [r for f in L.REG_FAMILIES[:8] for r in f]
         insts = L.gen_listing(rng, n, mnems=rng.sample(L.ALL_MNEMONICS, 6), regs=fam)
@@ -75,7 +86,7 @@ def _near(rng, op: str) -> str:
 class Driver:
     def __init__(self, ctx, feat_factory: Callable[[random.Random], RG.Feat], *, flags="all4",
                  styles=("mixed",), quirks=(), per_listing=8, mutate=0.5, extra=None, classify=None,
-                 nontrivial=None, config_extra=None):
+                 accept=None, interesting=None):
         self.ctx = ctx
         self.feat_factory = feat_factory
         self.flags = flags
@@ -85,7 +96,10 @@ class Driver:
         self.mutate = mutate
         self.extra = extra
         self.classify = classify      # (doc, prep, outcome) -> finding key or None (beyond quirk attribution)
+        self.accept = accept          # (pattern) -> bool: generator-side filter
+        self.interesting = interesting  # (pattern) -> bool: additional condition for a case to count as non-trivial
         self.ws = real.Workspace()
+        self.max_cost = 400
         self.prep: Optional[dsl.Prepared] = None
 
     FLAGSETS = [(False, False), (True, False), (False, True), (True, True)]
@@ -113,8 +127,12 @@ class Driver:
         flagsets = self.FLAGSETS if self.flags == "all4" else [ctx.rng.choice(self.FLAGSETS)] if self.flags == "random" else [(False, False)]
         any_found = False
         try:
-            if M.min_len(M.parse_rule({"pattern": pattern})) == 0:
+            root = M.parse_rule({"pattern": pattern})
+            if M.min_len(root) == 0:
                 ctx.event("skipped_can_match_empty")
+                return False
+            if not M.defs_on_spine(root):
+                ctx.event("skipped_capture_definition_off_spine")
                 return False
         except M.Unsupported as e:
             ctx.inconc(f"model unsupported: {str(e)[:40]}")
@@ -132,7 +150,7 @@ class Driver:
                 return False
             ctx.ran()
             any_found = any_found or o.found_model
-            nontrivial = o.found_model or base_found
+            nontrivial = (o.found_model or base_found) and (self.interesting is None or self.interesting(pattern))
             ctx.case((text, prep.expect), nontrivial, stratum=f"{self.style}/{desc.split(':')[0]}",
                      outcome=("exc" if o.status == "exc" else "found" if o.found_real else "not found"))
             ctx.event("hits_located", len(o.real_windows))
@@ -163,7 +181,15 @@ class Driver:
                 feat = self.feat_factory(ctx.rng)
                 gen = RG.RuleGen(ctx.rng, self.prep.sinsts, feat)
                 pattern = gen.rule()
+                for _ in range(40):
+                    if pattern and RG.pattern_cost(pattern) <= self.max_cost and (self.accept is None or self.accept(pattern)):
+                        break
+                    gen = RG.RuleGen(ctx.rng, self.prep.sinsts, self.feat_factory(ctx.rng))
+                    pattern = gen.rule()
+                else:
+                    pattern = None
                 if not pattern:
+                    ctx.event("generator_gave_up")
                     continue
                 found = self.run_pattern(pattern, "base", False)
                 done += 1
